@@ -9,6 +9,7 @@ import (
 	"runtime"
 	"sort"
 	"strings"
+	"sync"
 	"sync/atomic"
 	"testing"
 	"time"
@@ -47,14 +48,57 @@ type C16Op struct {
 	WaitUs      int    `json:"wait_us,omitempty"`
 }
 
+// C16Pause delays the goroutine that writes a log line (the Occ-th one containing Match, "" = any line) by
+// Us microseconds: every log statement of the receiver, its downloaders and the token pools becomes a point
+// at which the schedule can be stretched, without touching the product.
+type C16Pause struct {
+	Match string `json:"match"`
+	Occ   int    `json:"occ"`
+	Us    int    `json:"us"`
+}
+
+type pauseHook struct {
+	mu     sync.Mutex
+	pauses []C16Pause
+	seen   []int
+	fired  int
+}
+
+func (p *pauseHook) Levels() []logrus.Level { return logrus.AllLevels }
+
+func (p *pauseHook) Fire(e *logrus.Entry) error {
+	var d time.Duration
+	p.mu.Lock()
+	for i, ps := range p.pauses {
+		if ps.Match == "" || strings.Contains(e.Message, ps.Match) {
+			p.seen[i]++
+			if p.seen[i] == ps.Occ {
+				d += time.Duration(ps.Us) * time.Microsecond
+				p.fired++
+			}
+		}
+	}
+	p.mu.Unlock()
+	if d > 0 {
+		time.Sleep(d)
+	}
+	return nil
+}
+
+// c16LogMessages: fragments of the log lines of syncer/receiver and utils/climit (a fragment that no
+// longer occurs merely never fires).
+var c16LogMessages = []string{"", "Run exited", "no longer has any snapshots", "Load error", "Releasing", "Closing overwritten",
+	"Snapshot downloaded", "New snapshot detected", "marked as corrupt", "Waiting for", "Acquired", "Released"}
+
 type C16Case struct {
-	NInst      int     `json:"n_inst"`
-	LimitDown  int     `json:"limit_downloaded"`
-	LimitDecom int     `json:"limit_decompressed"`
-	OwnAtStart int     `json:"own_at_start"` // own snapshots present before start-up (0..2); the last may be corrupt
-	OwnCorrupt bool    `json:"own_corrupt,omitempty"`
-	Pre        []C16Op `json:"pre"` // publishes before start-up
-	Ops        []C16Op `json:"ops"`
+	Pauses     []C16Pause `json:"pauses,omitempty"`
+	NInst      int        `json:"n_inst"`
+	LimitDown  int        `json:"limit_downloaded"`
+	LimitDecom int        `json:"limit_decompressed"`
+	OwnAtStart int        `json:"own_at_start"` // own snapshots present before start-up (0..2); the last may be corrupt
+	OwnCorrupt bool       `json:"own_corrupt,omitempty"`
+	Pre        []C16Op    `json:"pre"` // publishes before start-up
+	Ops        []C16Op    `json:"ops"`
 }
 
 var dbSeq atomic.Int64
@@ -260,7 +304,16 @@ func checkC16(c C16Case, o *vcore.Obs) error {
 
 	ctx, cancel := context.WithCancel(context.Background())
 	defer cancel()
-	r := receiver.New(h, conf, db, logrus.StandardLogger(), "own", events.New(), hooks.New())
+	var lg logrus.FieldLogger = logrus.StandardLogger()
+	ph := &pauseHook{pauses: c.Pauses, seen: make([]int, len(c.Pauses))}
+	if len(c.Pauses) > 0 {
+		l := logrus.New()
+		l.SetOutput(io.Discard)
+		l.SetLevel(logrus.TraceLevel)
+		l.AddHook(ph)
+		lg = l
+	}
+	r := receiver.New(h, conf, db, lg, "own", events.New(), hooks.New())
 	if err := r.RunOnce(ctx, true); err != nil {
 		return fmt.Errorf("initial RunOnce: %v", err)
 	}
@@ -594,6 +647,9 @@ func checkC16(c C16Case, o *vcore.Obs) error {
 		}
 	}
 	o.NonTrivial((c.NInst >= 4 && c.LimitDown == 1 && c.LimitDecom == 1) || (faultsUsed && superseded) || mixed)
+	ph.mu.Lock()
+	o.ClassIf(ph.fired > 0, "goroutine-paused-at-a-log-line")
+	ph.mu.Unlock()
 	o.ClassIf(maxHeld == c.LimitDown+c.LimitDecom, "memory-limits-reached")
 	o.ClassIf(ownNeeded && c.OwnCorrupt && c.OwnAtStart == 2, "own-newest-corrupt-older-decodable")
 	o.ClassIf(nCorrupt > 0, "corrupt-blobs-present")
@@ -618,6 +674,10 @@ func genC16(t *rapid.T) C16Case {
 	}
 	for i := rapid.IntRange(0, 2).Draw(t, "nforeign"); i > 0; i-- {
 		c.Pre = append(c.Pre, C16Op{Kind: "foreign", Inst: rapid.IntRange(0, c.NInst-1).Draw(t, "finst"), Idx: rapid.IntRange(0, 7).Draw(t, "fidx")})
+	}
+	for i := rapid.SampledFrom([]int{0, 0, 1, 2, 3}).Draw(t, "npauses"); i > 0; i-- {
+		c.Pauses = append(c.Pauses, C16Pause{Match: rapid.SampledFrom(c16LogMessages).Draw(t, "pmatch"),
+			Occ: rapid.IntRange(1, 5).Draw(t, "pocc"), Us: rapid.SampledFrom([]int{300, 2000, 6000}).Draw(t, "pus")})
 	}
 	n := rapid.IntRange(3, 30).Draw(t, "nops")
 	for i := 0; i < n; i++ {
@@ -646,7 +706,67 @@ func genC16(t *rapid.T) C16Case {
 
 func TestC16Receiver(t *testing.T) {
 	vcore.Run(t, vcore.Config{Property: "C16", Inflight: true,
-		Rule: "rapid state machine over a bucket and one real receiver.Receiver (Run in the background, 1 ms poll/retry): 2-6 instances incl. the receiver's own, memory limits 1-3, publishes of valid / undecodable blobs (not gzip, gzip around non-protobuf bytes, cut short, gzip around a truncated message), files of other databases whose names share a prefix with this one and unparsable names (never delivered), removals (vanish between listing and download), List/Load fault plans (fail / not-exist, <=3), consume (updates held and released later), waits; at every step the active-token gauges stay within the limits, the number of snapshots held by storage-level accounting (downloads not yet delivered + deliveries not yet closed) stays within downloaded+decompressed limits, and every delivered update is a decodable newest snapshot of its instance at some point since its previous delivery, own snapshots only from the start-up listing; end phase (faults off, bucket frozen, draining consumer): every other instance's newest decodable snapshot arrives within a bounded time, then all tokens return to 0; undecodable blobs are downloaded at most once; " +
+		Rule: "rapid state machine over a bucket and one real receiver.Receiver (Run in the background, 1 ms poll/retry): 2-6 instances incl. the receiver's own, memory limits 1-3, publishes of valid / undecodable blobs (not gzip, gzip around non-protobuf bytes, cut short, gzip around a truncated message), files of other databases whose names share a prefix with this one and unparsable names (never delivered), removals (vanish between listing and download), List/Load fault plans (fail / not-exist, <=3), consume (updates held and released later), waits, and in half of the cases 1-3 pauses (0.3-6 ms) of whichever goroutine writes the k-th log line containing a given fragment (schedule stretching at every log statement of the receiver, downloaders and token pools); at every step the active-token gauges stay within the limits, the number of snapshots held by storage-level accounting (downloads not yet delivered + deliveries not yet closed) stays within downloaded+decompressed limits, and every delivered update is a decodable newest snapshot of its instance at some point since its previous delivery, own snapshots only from the start-up listing; end phase (faults off, bucket frozen, draining consumer): every other instance's newest decodable snapshot arrives within a bounded time, then all tokens return to 0; undecodable blobs are downloaded at most once; " +
 			"non-trivial = >=3 other instances with limits 1/1, or faults + a snapshot superseded before being consumed, or an instance with both corrupt and valid blobs"},
 		genC16, checkC16)
+}
+
+// ---- enumeration: fixed bucket evolutions x every log line as a pause point ----
+
+type enumC16Pause struct {
+	Scenario string `json:"scenario"` // vanish-reappear | corrupt-then-valid | supersede | limits
+	Match    string `json:"match"`
+	Occ      int    `json:"occ"`
+	LoadKind string `json:"load_kind"`
+	GapUs    int    `json:"gap_us"`
+}
+
+func (e enumC16Pause) toCase() C16Case {
+	c := C16Case{NInst: 2, LimitDown: 2, LimitDecom: 2, Pauses: []C16Pause{{Match: e.Match, Occ: e.Occ, Us: 6000}}}
+	gap := C16Op{Kind: "wait", WaitUs: e.GapUs}
+	switch e.Scenario {
+	case "vanish-reappear":
+		// the only snapshot of an instance cannot be loaded and is then cleaned away; later the instance is back
+		c.Ops = []C16Op{{Kind: "faults", Load: 3, LoadKind: e.LoadKind}, {Kind: "publish", Inst: 1}, {Kind: "wait", WaitUs: 1500},
+			{Kind: "remove", Idx: 0}, gap, {Kind: "publish", Inst: 1}, {Kind: "wait", WaitUs: 1500}}
+	case "corrupt-then-valid":
+		c.Ops = []C16Op{{Kind: "publish", Inst: 1}, {Kind: "wait", WaitUs: 1500}, {Kind: "faults", Load: 1, LoadKind: e.LoadKind},
+			{Kind: "publish", Inst: 1, Corrupt: true, CorruptKind: 1}, gap, {Kind: "publish", Inst: 1}, {Kind: "consume"}, {Kind: "wait", WaitUs: 1500}}
+	case "supersede":
+		// a downloaded snapshot is replaced before the consumer looks, while an earlier one is still held
+		c.Ops = []C16Op{{Kind: "publish", Inst: 1}, {Kind: "wait", WaitUs: 1500}, {Kind: "consume"}, {Kind: "faults", Load: 1, LoadKind: e.LoadKind},
+			{Kind: "publish", Inst: 1}, gap, {Kind: "publish", Inst: 1}, gap, {Kind: "release"}, {Kind: "publish", Inst: 1}, {Kind: "wait", WaitUs: 1500}, {Kind: "consume"}}
+	case "limits":
+		c.NInst, c.LimitDown, c.LimitDecom = 4, 1, 1
+		c.Ops = []C16Op{{Kind: "publish", Inst: 1}, {Kind: "publish", Inst: 2}, {Kind: "publish", Inst: 3}, gap, {Kind: "consume"},
+			{Kind: "faults", Load: 2, LoadKind: e.LoadKind}, {Kind: "publish", Inst: 2}, {Kind: "publish", Inst: 1, Corrupt: true, CorruptKind: 2}, gap,
+			{Kind: "consume"}, {Kind: "release"}, {Kind: "wait", WaitUs: 1500}, {Kind: "consume"}}
+	}
+	return c
+}
+
+func TestC16Pauses(t *testing.T) {
+	vcore.RunEnum(t, vcore.Config{Property: "C16", Inflight: true,
+		Rule: "enumeration: four fixed bucket evolutions (an instance's only snapshot fails to load, is cleaned away and the instance re-appears; a corrupt newest blob followed by a valid one; a snapshot superseded twice while an earlier one is still held by the consumer; three peers with limits 1/1, a failing download and a corrupt blob) x EVERY log statement of the receiver, its downloaders and the token pools as the place where the writing goroutine is held up for 6 ms (1st or 2nd occurrence) x Load failing / not-exist x the gap before the next bucket change {0, 0.3, 1, 2.5, 5 ms}; oracles of TestC16Receiver (limits at every step, only newest decodable snapshots delivered, everything needed delivered in the end, tokens back to 0); non-trivial = every case"},
+		func(yield func(enumC16Pause) bool) {
+			for _, sc := range []string{"vanish-reappear", "corrupt-then-valid", "supersede", "limits"} {
+				for _, m := range c16LogMessages[1:] {
+					for _, occ := range []int{1, 2} {
+						for _, lk := range []string{"fail", "not-exist"} {
+							for _, gap := range []int{0, 300, 1000, 2500, 5000} {
+								if !yield(enumC16Pause{Scenario: sc, Match: m, Occ: occ, LoadKind: lk, GapUs: gap}) {
+									return
+								}
+							}
+						}
+					}
+				}
+			}
+		},
+		func(e enumC16Pause, o *vcore.Obs) error {
+			err := checkC16(e.toCase(), o)
+			o.NonTrivial(true)
+			o.Class("scenario-" + e.Scenario)
+			return err
+		})
 }
